@@ -11,6 +11,7 @@
 #include <dlfcn.h>
 #include <fcntl.h>
 #include <sys/stat.h>
+#include <time.h>
 #include <algorithm>
 #include <unordered_map>
 
@@ -65,6 +66,7 @@ struct Task {
     long poll_epoch = -1;
     long pnum = -1;
     long prio = 0;
+    int omp_id = 0;
 };
 
 struct MutexRec { const void *addr; int owner; };
@@ -88,6 +90,7 @@ struct State {
     long stall_until = -1;
     int stall_seen = 0;
     int creates = 0;
+    int omp_team = 0;          // > 0 while inside a simulated OpenMP parallel region
 } g;
 
 // ---- allocator accounting
@@ -369,9 +372,11 @@ void begin_run(const RunConfig &cfg) {
     g.ntasks = 1;
     g.cur = 0;
     g.creates = 0;
+    g.omp_team = 0;
     g.stall_victim = -1; g.stall_until = -1; g.stall_seen = 0;
     g.low_prio = 0;
     Task &m = *g.pool[0];
+    m.omp_id = 0;
     m.id = 0; m.st = T_RUNNABLE; m.started = true; m.pnum = -1; m.joined = false; m.polled_empty = false;
     m.prio = 1000000; // main keeps top priority under PCT unless demoted
     g.change_points.clear();
@@ -551,6 +556,42 @@ int __wrap_pthread_mutex_unlock(pthread_mutex_t *m) {
     yield_point(YP_UNLOCK);
     return 0;
 }
+
+
+#ifdef SIM_OMP
+// ------------------------------------------------------------------ OpenMP build of the library (-D__OPENMP -fopenmp):
+// gcc lowers `#pragma omp parallel for` to GOMP_parallel(outlined_fn, data, num_threads, flags) and the outlined function
+// computes its own static chunk from omp_get_num_threads()/omp_get_thread_num(); `#pragma omp critical (NAME)` becomes
+// GOMP_critical_name_start/end(&.gomp_critical_user_NAME).  These five entry points are all the library needs from libgomp;
+// they are defined here (libgomp is not linked), so the team is made of simulated tasks and every critical section is a
+// simulated mutex keyed by the address of its name object.
+struct OmpArg { void (*fn)(void *); void *data; int tid; };
+static void *omp_trampoline(void *p) { OmpArg *a = (OmpArg *)p; g.pool[g.cur]->omp_id = a->tid; a->fn(a->data); return nullptr; }
+
+void GOMP_parallel(void (*fn)(void *), void *data, unsigned num_threads, unsigned /*flags*/) {
+    if (!g.active) { fn(data); return; }
+    int T = num_threads ? (int)num_threads : (g.cfg.omp_team > 0 ? g.cfg.omp_team : 1);
+    if (T > 64) T = 64;
+    if (g.omp_team > 0) { fn(data); return; } // nested region: serialised, as libgomp does by default
+    g.omp_team = T;
+    g.pool[g.cur]->omp_id = 0;
+    g.cfg.faults.thread_create_fail = -1;     // a team cannot fail to form in a way the library could handle: not a fault kind of this flavour
+    OmpArg arg[64];
+    pthread_t th[64];
+    for (int t = 1; t < T; ++t) {
+        arg[t] = OmpArg{fn, data, t};
+        if (__wrap_pthread_create(&th[t], nullptr, omp_trampoline, &arg[t]) != 0) die(END_ABORT, "simulated team could not be created");
+    }
+    fn(data);
+    for (int t = 1; t < T; ++t) __wrap_pthread_join(th[t], nullptr); // the implicit barrier at the end of the region
+    g.omp_team = 0;
+}
+int omp_get_thread_num(void) { return g.active && g.omp_team > 0 ? g.pool[g.cur]->omp_id : 0; }
+int omp_get_num_threads(void) { return g.active && g.omp_team > 0 ? g.omp_team : 1; }
+void GOMP_critical_name_start(void **pptr) { if (g.active) __wrap_pthread_mutex_lock((pthread_mutex_t *)pptr); }
+void GOMP_critical_name_end(void **pptr) { if (g.active) __wrap_pthread_mutex_unlock((pthread_mutex_t *)pptr); }
+double omp_get_wtime(void) { struct timespec ts; clock_gettime(CLOCK_MONOTONIC, &ts); return (double)ts.tv_sec + 1e-9 * (double)ts.tv_nsec; } // feeds Gstat->utime[] only
+#endif
 
 static void *account(void *p, size_t n, const void *site, bool fill) {
     if (!p) return p;
